@@ -996,6 +996,10 @@ void XMLPlatformUtils::removeDotSlash(XMLCh* const path
 void XMLPlatformUtils::removeDotDotSlash(XMLCh* const path
                                          , MemoryManager* const manager)
 {
+    // nothing to do for an empty path (the scan below starts at path[1])
+    if ((!path) || (!*path))
+        return;
+
     XMLSize_t pathLen = XMLString::stringLen(path);
     XMLCh* tmp1 = (XMLCh*) manager->allocate
     (
